@@ -41,7 +41,7 @@ func expr(k string, op corev1.NodeSelectorOperator, vals ...string) corev1.NodeS
 func witnesses(c *kit.Ctx) {
 	r := kit.NewRand(4242)
 	catalog := sk.GenCatalog(r, 4)
-	pool := test.NodePool(v1.NodePool{ObjectMeta: metav1.ObjectMeta{Name: "pool-w"}})
+	pool := test.NodePool(v1.NodePool{ObjectMeta: metav1.ObjectMeta{Name: "pool-w", UID: "uid-pool-w"}})
 	// F11: required `team In [a]` together with the preference `team In [c]` on a pool that does not define the key
 	p1 := plainPod("w1", 500)
 	required(p1, []corev1.NodeSelectorRequirement{expr(sk.TeamKey, corev1.NodeSelectorOpIn, "a")})
